@@ -225,6 +225,21 @@ def subsetSimple (flags : Nat) (d : Bytes) (nc : Nat) : GlyphRes :=
 /-- bits kept by `CompositeGlyphFlags::from_bits_truncate` -/
 def COMPOSITE_KNOWN_BITS : Nat := 0x1FEF
 
+/-- the value of the local `flags` after the two optional rewrites of one loop round
+(`f0` = `from_bits_truncate` of the stored word): WE_HAVE_INSTRUCTIONS removed under NO_HINTING,
+OVERLAP_COMPOUND inserted on the first component under SET_OVERLAPS_FLAG -/
+def compFlags (flags i f0 : Nat) : Nat :=
+  let f1 := if (f0 &&& 0x0100 != 0) ∧ hasFlag flags F_NO_HINTING then f0 &&& 0x1EEF else f0
+  if hasFlag flags F_SET_OVERLAPS ∧ i = 10 then f1 ||| 0x0400 else f1
+
+def putU16 (out : Bytes) (i v : Nat) : Bytes := (out.set i (v / 256)).set (i + 1) (v % 256)
+
+/-- the bytes after the flag rewrites of one round: each rewrite stores the truncated flags; when
+neither applies the stored word (with any unknown bits) stays -/
+def compWriteFlags (flags i f0 : Nat) (out : Bytes) : Bytes :=
+  let out1 := if (f0 &&& 0x0100 != 0) ∧ hasFlag flags F_NO_HINTING then putU16 out i (f0 &&& 0x1EEF) else out
+  if hasFlag flags F_SET_OVERLAPS ∧ i = 10 then putU16 out1 i (compFlags flags i f0) else out1
+
 /-- the `while more` loop of `subset_composite_glyph`; `none` = `return Vec::new()`.
 Result: (out, i, we_have_instructions). Fuel: each round advances `i` by at least 6. -/
 def compLoop (flags : Nat) (gmap : Nat → Option Nat) (len : Nat) :
@@ -233,23 +248,14 @@ def compLoop (flags : Nat) (gmap : Nat → Option Nat) (len : Nat) :
   | fuel + 1, out, i, whi =>
     if i + 3 ≥ len then none else
     let f0 := u16At out i &&& COMPOSITE_KNOWN_BITS
-    let hasInstr := f0 &&& 0x0100 != 0
-    let whi := whi || hasInstr
-    let (f1, out1) :=
-      if hasInstr ∧ hasFlag flags F_NO_HINTING then
-        let f := f0 - 0x0100
-        (f, (out.set i (f / 256)).set (i + 1) (f % 256))
-      else (f0, out)
-    let (f2, out2) :=
-      if hasFlag flags F_SET_OVERLAPS ∧ i = 10 then
-        let f := f1 ||| 0x0400
-        (f, (out1.set i (f / 256)).set (i + 1) (f % 256))
-      else (f1, out1)
+    let whi := whi || (f0 &&& 0x0100 != 0)
+    let f2 := compFlags flags i f0
+    let out2 := compWriteFlags flags i f0 out
     match gmap (u16At out2 (i + 2)) with
     | none => none
     | some new =>
       let new := new % 65536
-      let out3 := (out2.set (i + 2) (new / 256)).set (i + 3) (new % 256)
+      let out3 := putU16 out2 (i + 2) new
       let i := i + 4 + (if f2 &&& 0x0001 != 0 then 4 else 2)
       let i := i + (if f2 &&& 0x0008 != 0 then 2 else if f2 &&& 0x0040 != 0 then 4
                     else if f2 &&& 0x0080 != 0 then 8 else 0)
